@@ -280,6 +280,16 @@ fn xlsx_end_to_end(tier: Tier, seed: u64, idx: u64, of: u64, stats: &mut Stats) 
                     // options: filters give sub-multisets; --no-fx drops exactly the FX rows
                     if let Ok((true, o2, _)) = run(&["--account=", "--no-fx"]) { let want_nofx = want.iter().filter(|w| !w.security.ends_with(".FX")).count(); if count_rows(&o2).len() != want_nofx { fail(stats, format!("--no-fx: {} rows, expected {want_nofx}", count_rows(&o2).len())); } }
                     if let Ok((true, o3, _)) = run(&["--account=", "--security", "^FOO$"]) { let w = want.iter().filter(|w| w.security == "FOO").count(); if count_rows(&o3).len() != w { fail(stats, format!("--security ^FOO$: {} rows, expected {w}", count_rows(&o3).len())); } }
+                    // option combinations: --security patterns that also match the currency-holding symbol, alone and together with --no-fx
+                    for pat in [".", "U", "FX$", "^(FOO|USD\\.FX)$"] {
+                        let re = regex::Regex::new(pat).unwrap();
+                        let w_sec = want.iter().filter(|w| re.is_match(&w.security)).count();
+                        let w_both = want.iter().filter(|w| re.is_match(&w.security) && !w.security.ends_with(".FX")).count();
+                        if let Ok((true, o, _)) = run(&["--account=", "--security", pat]) { if count_rows(&o).len() != w_sec { fail(stats, format!("--security {pat}: {} rows, expected {w_sec}", count_rows(&o).len())); } }
+                        for args in [["--account=", "--security", pat, "--no-fx"], ["--account=", "--no-fx", "--security", pat]] {
+                            if let Ok((true, o, _)) = run(&args) { if count_rows(&o).len() != w_both { fail(stats, format!("{}: {} rows, expected {w_both} (the rows of matching securities that are not currency holdings)", args[1..].join(" "), count_rows(&o).len())); } }
+                        }
+                    }
                     // (--account patterns are checked below against the joined account string)
                     // --account is a regular expression over '<account type> <account number>' (one string): the whole string, either part
                     let mut accounts: Vec<(String, String)> = e.rows.iter().map(|a| (a.cells["Account Type"].clone(), a.cells["Account #"].clone())).collect(); accounts.sort(); accounts.dedup();
@@ -306,7 +316,7 @@ fn xlsx_end_to_end(tier: Tier, seed: u64, idx: u64, of: u64, stats: &mut Stats) 
 }
 
 pub fn def() -> PropDef {
-    let mut d = PropDef::new("C18", "well-formed Questrade activity exports: 1-25 activities over BUY, SELL, DIS, LIQ, DIV, FXT pairs (either leg first) and the documented ignored codes; margin / TFSA / RRSP / RESP accounts (type spelled in upper, lower and mixed case); CAD and USD; signed quantities and commissions as Questrade writes them; the H038778 alias; x column layout (permutation, extra named columns, one or two blank-headed columns, a column headed by a number or a boolean cell, numeric vs string cells). In memory through office::Range -> sheet_to_txs, and end to end for a sample (real .xlsx via rust_xlsxwriter -> run_with_args -> CSV, with --no-fx / --security / --account / --usd-exchange-rate). Oracles: multiset of emitted rows = the generator's own record of trade activities and FX rows (dates, |qty|, price, |commission|, currency, registered affiliate, implied FXT rate); signed USD.FX total = USD cash flow (exact); output independent of the layout; sorted output ordered by settlement date and, within one settlement time, USD.FX purchases (dividends included) before USD.FX sales; every row accepted by acb's parser, rate loader and Tx conversion. Non-trivial = export with a USD trade and an FXT pair, or a layout with a blank or non-text header cell. Distinct = distinct case content.");
+    let mut d = PropDef::new("C18", "well-formed Questrade activity exports: 1-25 activities over BUY, SELL, DIS, LIQ, DIV, FXT pairs (either leg first) and the documented ignored codes; margin / TFSA / RRSP / RESP accounts (type spelled in upper, lower and mixed case); CAD and USD; signed quantities and commissions as Questrade writes them; the H038778 alias; x column layout (permutation, extra named columns, one or two blank-headed columns, a column headed by a number or a boolean cell, numeric vs string cells). In memory through office::Range -> sheet_to_txs, and end to end for a sample (real .xlsx via rust_xlsxwriter -> run_with_args -> CSV, with --no-fx / --security / --account / --usd-exchange-rate, and --security patterns matching USD.FX combined with --no-fx in either order). Oracles: multiset of emitted rows = the generator's own record of trade activities and FX rows (dates, |qty|, price, |commission|, currency, registered affiliate, implied FXT rate); signed USD.FX total = USD cash flow (exact); output independent of the layout; sorted output ordered by settlement date and, within one settlement time, USD.FX purchases (dividends included) before USD.FX sales; every row accepted by acb's parser, rate loader and Tx conversion. Non-trivial = export with a USD trade and an FXT pair, or a layout with a blank or non-text header cell. Distinct = distinct case content.");
     d.assumptions = vec!["ledger-level acceptance (e.g. USD.FX over-sale) is not the converter's contract; rows are checked for row-level acceptance", "numeric cells go through the same f64 -> Decimal conversion on both sides"];
     d.subs.push(Box::new(Sub::<Export> { name: "sheet", cases_quick: 20_000, cases_thorough: 800_000, strategy: Box::new(|_| export_strategy()), to_json: Export::to_json, from_json: Export::from_json, check }));
     d.extra = Some(xlsx_end_to_end);
